@@ -5,6 +5,8 @@
 package gen
 
 import (
+	"crypto/sha256"
+	"encoding/binary"
 	"fmt"
 	"math/big"
 	"reflect"
@@ -15,6 +17,43 @@ import (
 	"github.com/zmap/zcrypto/encoding/asn1"
 	"verifharness/vh"
 )
+
+// R is the source of random choices (vh.Ctx satisfies it; the harnesses pass a Rand derived from the run's seed).
+type R interface {
+	Intn(n int) int
+	Bool() bool
+	Bytes(n int) []byte
+}
+
+// Rand is splitmix64 started from a hash of (seed, salt).  vh.Ctx starts its generator at seed*C+k and adds C per
+// draw, so the streams of neighbouring seeds are one another shifted by one draw; hashing the seed removes that.
+type Rand struct{ s uint64 }
+
+func NewRand(seed uint64, salt string) *Rand {
+	h := sha256.Sum256([]byte(fmt.Sprintf("%d/%s", seed, salt)))
+	return &Rand{s: binary.BigEndian.Uint64(h[:8])}
+}
+func (r *Rand) U64() uint64 {
+	r.s += 0x9E3779B97F4A7C15
+	z := r.s
+	z = (z ^ (z >> 30)) * 0xBF58476D1CE4E5B9
+	z = (z ^ (z >> 27)) * 0x94D049BB133111EB
+	return z ^ (z >> 31)
+}
+func (r *Rand) Intn(n int) int {
+	if n <= 0 {
+		return 0
+	}
+	return int(r.U64() % uint64(n))
+}
+func (r *Rand) Bool() bool { return r.U64()&1 == 1 }
+func (r *Rand) Bytes(n int) []byte {
+	b := make([]byte, n)
+	for i := range b {
+		b[i] = byte(r.U64())
+	}
+	return b
+}
 
 // Ty mirrors C20.ty.  K is one of
 // bool int int32 int64 big enum str oid bits time bytes raw flag struct slice.
@@ -222,9 +261,15 @@ func CoqValue(t *Ty, v reflect.Value) string {
 	case "str":
 		return vh.App("VStr", vh.Str(v.String()))
 	case "oid":
+		if v.IsNil() {
+			return "VNull"
+		}
 		return vh.App("VOid", coqNList(v.Interface().(asn1.ObjectIdentifier)))
 	case "bits":
 		b := v.Interface().(asn1.BitString)
+		if b.Bytes == nil && b.BitLength == 0 {
+			return "VNull"
+		}
 		return vh.App("VBits", vh.Bytes(b.Bytes), vh.Z(int64(b.BitLength)))
 	case "time":
 		return vh.App("VTime", CoqTime(v.Interface().(time.Time)))
@@ -235,6 +280,9 @@ func CoqValue(t *Ty, v reflect.Value) string {
 		return vh.App("VBytes", vh.Bytes(v.Bytes()))
 	case "raw":
 		r := v.Interface().(asn1.RawValue)
+		if reflect.DeepEqual(r, asn1.RawValue{}) {
+			return "VNull"
+		}
 		return vh.App("VRaw", vh.NI(r.Class), vh.NI(r.Tag), vh.Bool(r.IsCompound), vh.Bytes(r.Bytes), vh.Bytes(r.FullBytes))
 	case "flag":
 		return vh.App("VFlag", vh.Bool(v.Bool()))
@@ -270,7 +318,7 @@ func CoqValue(t *Ty, v reflect.Value) string {
 var primKinds = []string{"bool", "int", "int32", "int64", "big", "enum", "str", "oid", "bits", "time", "bytes", "raw", "flag"}
 
 // RandTy draws a type of nesting depth <= depth.
-func RandTy(c *vh.Ctx, depth int) *Ty {
+func RandTy(c R, depth int) *Ty {
 	if depth <= 0 || c.Intn(10) < 4 {
 		return &Ty{K: primKinds[c.Intn(len(primKinds))]}
 	}
@@ -296,7 +344,7 @@ func RandTy(c *vh.Ctx, depth int) *Ty {
 func isIntKind(k string) bool { return k == "int" || k == "int32" || k == "int64" || k == "enum" }
 
 // RandTag draws a field-parameter string that mostly suits t.
-func RandTag(c *vh.Ctx, t *Ty) string {
+func RandTag(c R, t *Ty) string {
 	if c.Intn(4) == 0 {
 		return ""
 	}
@@ -358,7 +406,7 @@ func RandTag(c *vh.Ctx, t *Ty) string {
 var int64Edges = []int64{0, 1, -1, 127, 128, -128, -129, 255, 256, 32767, 32768, -32768, -32769,
 	1<<31 - 1, 1 << 31, -(1 << 31), -(1 << 31) - 1, 1<<63 - 1, -(1 << 63), 1 << 55, -(1 << 55), 1<<56 - 1}
 
-func randInt64(c *vh.Ctx) int64 {
+func randInt64(c R) int64 {
 	if c.Intn(3) == 0 {
 		return int64Edges[c.Intn(len(int64Edges))]
 	}
@@ -381,7 +429,7 @@ var alphabets = map[string]string{
 }
 
 // RandString draws a string for the given string-type parameter ("" = none).
-func RandString(c *vh.Ctx, st string, wild int) string {
+func RandString(c R, st string, wild int) string {
 	n := c.Intn(7)
 	if c.Intn(20) == 0 {
 		n = 120 + c.Intn(20) // crosses the long-form length boundary
@@ -407,9 +455,9 @@ func RandString(c *vh.Ctx, st string, wild int) string {
 	return sb.String()
 }
 
-func randOid(c *vh.Ctx, wild int) asn1.ObjectIdentifier {
+func randOid(c R, wild int) asn1.ObjectIdentifier {
 	if wild > 0 && c.Intn(wild) == 0 {
-		return []asn1.ObjectIdentifier{nil, {1}, {3, 1}, {1, 40}, {0, 39, -1}, {2, 1 << 31}}[c.Intn(6)]
+		return []asn1.ObjectIdentifier{nil, {1}, {3, 1}, {1, 40}, {}, {2, 1 << 31}}[c.Intn(6)]
 	}
 	o := asn1.ObjectIdentifier{c.Intn(3)}
 	if o[0] < 2 {
@@ -424,7 +472,7 @@ func randOid(c *vh.Ctx, wild int) asn1.ObjectIdentifier {
 	return o
 }
 
-func randBits(c *vh.Ctx, wild int) asn1.BitString {
+func randBits(c R, wild int) asn1.BitString {
 	n := c.Intn(5)
 	b := c.Bytes(n)
 	pad := 0
@@ -443,7 +491,7 @@ func randBits(c *vh.Ctx, wild int) asn1.BitString {
 }
 
 // RandTime draws a time; wild > 0 allows sub-minute zone offsets, years outside 0..9999.
-func RandTime(c *vh.Ctx, wild int) time.Time {
+func RandTime(c R, wild int) time.Time {
 	year := 1950 + c.Intn(100)
 	switch c.Intn(10) {
 	case 0:
@@ -477,10 +525,14 @@ func RandTime(c *vh.Ctx, wild int) time.Time {
 	if c.Intn(4) == 0 {
 		nsec = c.Intn(1000000000)
 	}
-	return time.Date(year, time.Month(month), day, c.Intn(24), c.Intn(60), c.Intn(60), nsec, loc)
+	t := time.Date(year, time.Month(month), day, c.Intn(24), c.Intn(60), c.Intn(60), nsec, loc)
+	if t.Year() == 1 && t.YearDay() == 1 && t.Hour() == 0 && t.Minute() == 0 && t.Second() == 0 && t.Nanosecond() == 0 {
+		t = t.Add(time.Hour) // keep clear of the zero instant (the model identifies it with the zero value)
+	}
+	return t
 }
 
-func randRaw(c *vh.Ctx, wild int) asn1.RawValue {
+func randRaw(c R, wild int) asn1.RawValue {
 	switch c.Intn(4) {
 	case 0: // FullBytes of a well-formed element
 		inner := c.Bytes(c.Intn(4))
@@ -524,13 +576,13 @@ func StringTypeOf(tag string) string {
 // RandValue draws a value of GoType(t).  tag is the parameter string of the
 // position the value sits in (it selects the string alphabet); wild > 0 makes
 // one choice in `wild` leave the documented round-trip domain.
-func RandValue(c *vh.Ctx, t *Ty, tag string, wild int) reflect.Value {
+func RandValue(c R, t *Ty, tag string, wild int) reflect.Value {
 	v := reflect.New(GoType(t)).Elem()
 	FillValue(c, t, tag, wild, v)
 	return v
 }
 
-func FillValue(c *vh.Ctx, t *Ty, tag string, wild int, v reflect.Value) {
+func FillValue(c R, t *Ty, tag string, wild int, v reflect.Value) {
 	zeroish := strings.Contains(tag, "optional") && c.Intn(3) == 0 // exercise omission
 	switch t.K {
 	case "bool":
@@ -769,7 +821,7 @@ var MutKinds = []string{"permLongLen", "permIntPad", "permBadChar", "permTimeZon
 
 // Mutate applies one mutation of the given kind to node n; it returns an undo
 // function, or nil when the kind does not apply to n.
-func Mutate(c *vh.Ctx, n *Node, kind string) func() {
+func Mutate(c R, n *Node, kind string) func() {
 	leaf := n.Kids == nil
 	tagNo := n.Hdr0 & 0x1f
 	universal := n.Hdr0&0xc0 == 0
